@@ -57,6 +57,7 @@ type c11Sys struct {
 	obsMu    sync.Mutex
 	observed map[[16]byte]bool
 	samples  []map[string]string
+	caps     []string
 }
 
 func c11Systems() []*c11Sys {
@@ -770,6 +771,9 @@ func TestVerifC11_hist_group(t *testing.T) {
 		if len(s.samples) > 0 {
 			r.Sample(s.samples[0])
 		}
+		for _, c := range s.caps {
+			r.Cap(c)
+		}
 	}
 	r.Set("mode", modes)
 	r.Set("depth_completed", depths)
@@ -894,7 +898,7 @@ func c11BFS(r *verifmc.Run, s *c11Sys, col *c11Collector, depthPar, depthSeq int
 							next = append(next, node{h})
 						}
 						if depth == 2 && len(next)%97 == 1 {
-							r.Sample(map[string]string{"group": s.name, "history": s.histText(h), "state": hex.EncodeToString(res.key[:])})
+							s.samples = append(s.samples, map[string]string{"group": s.name, "history": s.histText(h), "state": hex.EncodeToString(res.key[:])})
 						}
 					}
 				}
@@ -904,10 +908,10 @@ func c11BFS(r *verifmc.Run, s *c11Sys, col *c11Collector, depthPar, depthSeq int
 		if depth == 1 && exposed {
 			mode = "sequential (slots can reach library-global storage)"
 			maxDepth = depthSeq
-			r.NotExhaustive(fmt.Sprintf("%s: element slots alias library-global curve parameters, search run sequentially with repair and limited to depth %d instead of %d", s.name, depthSeq, depthPar))
+			s.caps = append(s.caps, fmt.Sprintf("%s: element slots alias library-global curve parameters, search run sequentially with repair and limited to depth %d instead of %d", s.name, depthSeq, depthPar))
 		}
 		if lateExposure {
-			r.Cap(s.name + ": slot storage aliasing curve parameters first appeared below depth 1 during a parallel level; results of that level may be order-dependent")
+			s.caps = append(s.caps, s.name+": slot storage aliasing curve parameters first appeared below depth 1 during a parallel level; results of that level may be order-dependent")
 		}
 		frontier = next
 	}
